@@ -52,7 +52,8 @@ CompatClause(e) ==           \* passes = a.compatible(b) returned without an exc
     ELSE IF e.passes THEN "compat.unsound"              \* some value valid for a is not valid for b
     ELSE "compat.refuses-supported"
 EquivClause(e) ==            \* d1 / d2 / d2x / d3: datainfo of the type, of the rebuilt type (also with an unknown key), of the copy
-    IF Rebuild(e.d1) # e.dt THEN "describe.denotes"
+    IF e.d1.j # "obj" THEN "describe.raises"
+    ELSE IF Rebuild(e.d1) # e.dt THEN "describe.denotes"
     ELSE IF e.d2 # e.d1 THEN "rebuild.datainfo"
     ELSE IF e.d2x # e.d1 THEN "rebuild.ignore-unknown"
     ELSE IF e.d3 # e.d1 THEN "copy.datainfo"
